@@ -217,6 +217,36 @@ async fn exec(store: &Store, gate: &Arc<Gate>, kind: &str, op: &Value) -> Value 
             }
             json!({"ok": null})
         }
+        "serve" => {
+            let engine = xs::nu::Engine::new().unwrap();
+            let st = store.clone();
+            tokio::spawn(async move {
+                let _ = xs::api::serve(st, engine, None).await;
+            });
+            let sock = store.path.join("sock");
+            for _ in 0..400 {
+                if sock.exists() {
+                    break;
+                }
+                tokio::time::sleep(std::time::Duration::from_millis(5)).await;
+            }
+            // the listener is bound right after the xs.start frame was appended
+            let f = store.head("xs.start", xs::store::ZERO_CONTEXT);
+            json!({"ok": f.as_ref().map(frame_json)})
+        }
+        "http" => crate::http_client::request(&store.path.join("sock"), op).await,
+        "http_bg" => crate::http_client::request_bg(&store.path.join("sock"), op).await,
+        "http_collect" => crate::http_client::collect_bg(op).await,
+        "cas_has" => {
+            let h: Result<ssri::Integrity, _> = op["hash"].as_str().unwrap_or("").parse();
+            match h {
+                Ok(h) => match store.cas_read(&h).await {
+                    Ok(b) => json!({"ok": hex::encode(b)}),
+                    Err(_) => json!({"ok": null}),
+                },
+                Err(_) => json!({"err": "bad-hash"}),
+            }
+        }
         "dump" => {
             let (stream, idx_t, idx_c, contexts) = store.verif_dump();
             let stream: Vec<Value> = stream
